@@ -121,11 +121,14 @@ var keyPools = [][]string{
 	{"i5", "h5", "l5", "b5"}, {"h7"}, {"l-9223372036854775808", "h-2147483648", "b255"}, {"b0", "h0"},
 	// struct keys (single map only)
 	{"t1:a", "t1:b", "s"}, {"t-7:", "i-7"},
+	// pointer keys (identity of the pointer; the pointee may change under the lock) and float keys (0.0 and -0.0 are ONE key):
+	// valid map keys remap cannot route - on wide / xhash maps the call panics before anything is locked
+	{"p1", "p2"}, {"f0", "f-0", "f1"}, {"p7", "f-0", "i0"},
 }
 
 func poolNeedsSingle(pool []string) bool {
 	for _, k := range pool {
-		if k[0] == 't' {
+		if k[0] == 't' || k[0] == 'p' || k[0] == 'f' {
 			return true
 		}
 	}
@@ -152,8 +155,8 @@ func genScript(r *rng.R, tier string) corr.Case {
 	variant := r.Pick("single", "single", "wide", "xhash")
 	prime := r.PickInt(1, 2, 73, 0, 3)
 	pool := keyPools[r.Intn(len(keyPools))]
-	if poolNeedsSingle(pool) {
-		variant = "single"
+	if poolNeedsSingle(pool) && r.Intn(4) != 0 {
+		variant = "single" // on a sharded map these keys only panic (kept in 1/4 of the cases)
 	}
 	maxEv, maxActive := 14, 6
 	if r.Intn(6) == 0 {
@@ -419,7 +422,7 @@ func genMalformed(r *rng.R) corr.Case {
 	lines := []string{r.Pick("new single 2 0", "new wide 3 2", "new xhash 1 73")}
 	junk := []string{"", "rel", "rel 99", "rel x", "rel 01", "cancel 77", "cancel -1", "acqR 1", "acqR 1 i5 extra", "acqR 01 i5",
 		"acqR 1 x5", "acqR 1 i05", "acqR 1 i+5", "acqR 1 i", "acqW 1234567890 i1", "acqR 1 i9223372036854775808",
-		"acqR -1 i5", "acqR 1 h2147483648", "acqR 1 b256", "acqR 1 b-1", "acqR 1 t5", "acqR 1 tx:a", "acqR 1 l", "stress single 0 0 8 2 100 1", "stress single 2 0 65 2 100 1", "stress single 2 0 8 9 100 1", "stress single 2 0 8 2", "new single 0 0", "new triple 2 0", "new single 2", "new single 02 0", "new single 2 12345",
+		"acqR -1 i5", "acqR 1 h2147483648", "acqR 1 b256", "acqR 1 b-1", "acqR 1 t5", "acqR 1 p", "acqR 1 p1000", "acqR 1 f1001", "acqR 1 f0.5", "acqR 1 f-00", "poke", "poke x", "poke 1000", "burst single 0 0 10", "burst single 2 0 0", "burst single 2 0 20001", "burst tri 2 0 10", "acqR 1 tx:a", "acqR 1 l", "stress single 0 0 8 2 100 1", "stress single 2 0 65 2 100 1", "stress single 2 0 8 9 100 1", "stress single 2 0 8 2", "new single 0 0", "new triple 2 0", "new single 2", "new single 02 0", "new single 2 12345",
 		"new single 1234567 0", "state", "state k", "inside", "inside 5", "who now", "entries 1", "ACQR 1 i5", "acqRx 3",
 		"acqZ 1 i5", "rel 1 2", "relx 1", "relx 1 x", "relx 99 1", "obj", "obj 99", "obj x", "state i05", "inside i--1", "new wide 2 -1"}
 	n := r.Range(6, 16)
@@ -583,7 +586,21 @@ func fixedCases() []corr.Case {
 		mk("key-types", "new wide 2 2", "acqW 1 i5", "acqW 2 h5", "acqW 3 l5", "acqW 4 b5", "acqW 5 s5", "who", "entries", "acqR 6 h5", "rel 2", "who", "rel 1", "rel 3", "rel 4", "rel 5", "rel 6", "entries"),
 		mk("struct-keys", "new single 2 0", "acqW 1 t1:a", "acqW 2 t1:b", "acqW 3 t1:a", "who", "entries", "rel 1", "who", "rel 2", "rel 3", "entries", "state t1:a"),
 		mk("struct-key-not-routable", "new wide 2 2", "acqW 1 t1:a", "who"),
+		// key kinds outside remap's arms: ordinary keys on the single map, `panic:unroutable` (nothing locked, nothing stored) on sharded maps
+		mk("pointer-key-single", "new single 2 0", "acqW 1 p1", "poke 1", "acqW 2 p1", "acqR 3 p2", "inside p1", "who", "rel 1", "who", "rel 2", "rel 3", "entries"),
+		mk("pointer-key-wide", "new wide 2 2", "acqW 1 p1", "poke 1", "acqW 2 p1", "acqR 3 p1", "inside p1", "who", "entries", "state p1"),
+		mk("pointer-key-xhash", "new xhash 3 73", "acqR 1 p1", "poke 1", "acqW 2 p1", "acqWx 3 p1", "inside p1", "who", "cancel 1", "entries"),
+		mk("float-zeros-single", "new single 2 0", "acqW 1 f0", "acqW 2 f-0", "acqR 3 f1", "inside f0", "inside f-0", "who", "rel 1", "who", "rel 2", "rel 3", "entries"),
+		mk("float-zeros-wide", "new wide 2 2", "acqW 1 f0", "acqW 2 f-0", "inside f0", "who", "entries"),
+		mk("float-zeros-xhash", "new xhash 2 1", "acqW 1 f-0", "acqW 2 f0", "acqR 3 f1", "inside f0", "who", "entries"),
+		mk("struct-key-xhash", "new xhash 2 2", "acqW 1 t1:a", "acqW 2 t1:a", "who", "entries"),
+		// more than 4096 distinct keys live at once, then all released: the container must be empty again
+		mk("burst-5000-single", "burst single 3 0 5000"),
+		mk("burst-4500-one-shard", "burst wide 2 1 4500"),
+		mk("burst-xhash", "burst xhash 1 73 6000"),
 		mk("parallel-stress", "stress single 3 0 16 2 250 1"),
+		// sharded by xxhash, 8 short string keys of different lengths, three callers per key: every call hashes a string
+		mk("parallel-stress-strings", "stress xhash 4 2 24 8 300 3"),
 		mk("parallel-stress-wide", "stress xhash 1 2 12 3 250 2"),
 		mk("drain", "new single 2 0", "acqR 1 i0", "acqR 2 i0", "acqW 3 i0", "rel 1", "rel 2", "rel 3", "entries", "state i0"),
 	}
@@ -651,7 +668,7 @@ func spec() corr.Spec {
 			}
 			return "C01:corr:" + op
 		},
-		Rule: "sequential class: scripts of acqR/acqW/acqRx/acqWx/rel/relx/cancel events (quiescence after each) over <= 12 (thorough <= 16; rwRatio+2 more for rwRatio >= 7) simultaneous callers, 1-4 keys of dynamic types int/int32/int64/uint8/string/struct (incl. extreme values, the same number under four types), rwRatio in {1,2,3,4,7,10,64,default}, single/wide/xhash maps with prime in {1,2,3,73,default 211}; 5 generator classes (rw-mix, reader-heavy, writer-heavy, cancel-heavy, drain) + 1/20 long-queue (20-40, thorough 20-60 blocked callers behind a writer, late arrivals, cancels at head/middle/tail) + 1/12 malformed; parallel class: `stress` lines = N goroutines x few keys for 0.2-1.5 s in a child process, no scheduling by the harness (callers' own section counters, termination, empty container, runtime fatal errors); thorough adds every maximal script <= 7 events over 3 callers x 2 keys (rw 2), <= 7 events over 4 callers (rw 3), <= 6 events incl. relx (rw 1, rw 2). A case is non-trivial when some caller had to wait or a release/cancel admitted a waiter; distinct = distinct script text",
+		Rule: "sequential class: scripts of acqR/acqW/acqRx/acqWx/rel/relx/cancel events (quiescence after each) over <= 12 (thorough <= 16; rwRatio+2 more for rwRatio >= 7) simultaneous callers, 1-4 keys of dynamic types int/int32/int64/uint8/string and - not routable by remap: `panic:unroutable` on sharded maps - struct/pointer (pointee poked under the lock)/float64 (0.0 and -0.0 one key) (incl. extreme values, the same number under four types), rwRatio in {1,2,3,4,7,10,64,default}, single/wide/xhash maps with prime in {1,2,3,73,default 211}; 5 generator classes (rw-mix, reader-heavy, writer-heavy, cancel-heavy, drain) + 1/20 long-queue (20-40, thorough 20-60 blocked callers behind a writer, late arrivals, cancels at head/middle/tail) + 1/12 malformed; burst class: `burst` lines = 4500-6000 distinct keys held at once, probed with a second writer, all released, container must be empty; parallel class: `stress` lines = N goroutines x few keys for 0.2-1.5 s in a child process, no scheduling by the harness (callers' own section counters, termination, empty container, runtime fatal errors); thorough adds every maximal script <= 7 events over 3 callers x 2 keys (rw 2), <= 7 events over 4 callers (rw 3), <= 6 events incl. relx (rw 1, rw 2). A case is non-trivial when some caller had to wait or a release/cancel admitted a waiter; distinct = distinct script text",
 		Assumptions: []string{
 			"sync.Mutex makes each of the three critical sections (acquire up to Unlock, release, cancel fix-up) atomic; channels/select/context behave as documented",
 			"caller discipline (hypothesis of every theorem, `KS.enabled` in the model; SemMap.release trusts key, w and n blindly): a caller releases only what it acquired, once, with the SAME key, the matching Release* (read/write) and the *Weighted it was given",
